@@ -65,7 +65,7 @@ def equivalent(utype, a, b):
 
 ACCESSORS = ["ham_new", "ham_assign", "faxis", "mol_new", "mol_set_energy", "mol_width", "mode_new", "mode_set_energy",
              "agg_coupling", "agg_coupling_matrix", "cf_reorg", "sd_reorg", "length", "ham_rwa", "mol_adiabatic", "submode", "ham_inplace",
-             "mol_ham", "mol_vib_ham"]
+             "mol_ham", "mol_vib_ham", "ham_diag", "ham_undiag"]
 LIBCALLS = ["agg_build", "agg_build_env", "agg_build_raises", "agg_rebuild", "get_Hamiltonian", "relaxation_tensor", "rate_matrix",
             "set_rwa", "time_to_frequency_axis", "frequency_to_time_axis", "thermal_state", "molecule_hamiltonian",
             "cf_add", "sd_from_cf", "ft_cf", "abs_calculate", "propagate", "diagonalize", "convert",
@@ -86,7 +86,8 @@ class World:
                        "length_context", "frequency_context", "global_set_inside_context", "enforce_probe_inside",
                        "enforce_probe_outside", "mixed_energy_length_nesting", "context_object_reused",
                        "context_object_reused_under_same_units", "failing_convert", "hamiltonian_modified_in_place_between_reads", "api_sweep_call",
-                       "molecule_hamiltonian_first_built_here"]
+                       "molecule_hamiltonian_first_built_here", "hamiltonian_diagonalized_here",
+                       "context_object_reentered_while_active", "context_object_reentered_under_other_units"]
     required_faults = ["F1_simfault", "F2_library_call_raises", "F3_unknown_unit"]
     components = {
         "real": ["Manager unit state and conversions", "energy_units / frequency_units / length_units", "set_current_units",
@@ -217,7 +218,7 @@ class Runner:
         self.freq0 = self.m.get_current_units("frequency")
         self.stack = []          # (utype, backup)
         self.cm_pool = {}        # (constructor name, unit) -> context manager object (re-used sequentially, never re-entered)
-        self.cm_active = set()
+        self.cm_active = {}
         self.objs = {}
         self.inside_ops = 0
         self.entered = 0
@@ -339,9 +340,13 @@ class Runner:
         nxt = None
         pre = dict(self.cur)
         key = (cm.__name__, u)
-        if op.get("reuse") and key in self.cm_pool and key not in self.cm_active:
+        if op.get("reuse") and key in self.cm_pool:
             cmo = self.cm_pool[key]
             self.ctx.probe("context_object_reused")
+            if self.cm_active.get(key, 0) > 0:
+                self.ctx.probe("context_object_reentered_while_active")
+                if not equivalent(utype, self.cur[utype], u):
+                    self.ctx.probe("context_object_reentered_under_other_units")
             if equivalent(utype, self.cur[utype], u):
                 self.ctx.probe("context_object_reused_under_same_units")
         else:
@@ -349,11 +354,11 @@ class Runner:
                 cmo = cm(u)
             except Exception as e:
                 raise Violation("context-enter-raises", "%s(%r): %s: %s" % (cm.__name__, u, type(e).__name__, e))
-            if key not in self.cm_active:
+            if self.cm_active.get(key, 0) == 0:
                 self.cm_pool[key] = cmo
         pooled = self.cm_pool.get(key) is cmo
         if pooled:
-            self.cm_active.add(key)
+            self.cm_active[key] = self.cm_active.get(key, 0) + 1
         try:
             with cmo:
                 entered = True
@@ -374,7 +379,7 @@ class Runner:
             raise Violation("context-exit-raises" if entered else "context-enter-raises",
                             "%s_units(%r) entered at op %d: %s: %s" % (utype, u, i, type(e).__name__, e))
         if pooled:
-            self.cm_active.discard(key)
+            self.cm_active[key] -= 1
         if not entered:
             raise HarnessError("units context not entered")
         t, backup = self.stack.pop()
@@ -574,6 +579,26 @@ class Runner:
                 obj = qr.Hamiltonian(data=from_internal(u, E))
                 obj.set_rwa([0, 1])
                 store = E
+            elif name == "ham_diag":
+                # a calculator call that rewrites the stored matrix: diagonalisation requested under the active units
+                E = numpy.array([[0.0, 0.0, 0.0], [0.0, e, e / 5.0], [0.0, e / 5.0, 1.1 * e]])
+                obj = qr.Hamiltonian(data=from_internal(u, E))
+                obj.diagonalize()
+                store = numpy.diag(numpy.linalg.eigvalsh(E))
+                self.ctx.probe("hamiltonian_diagonalized_here")
+            elif name == "ham_undiag":
+                if u == "nm":
+                    self.ctx.ev(i, "set", name, "noop-nm")
+                    return
+                E = numpy.array([[0.0, 0.0, 0.0], [0.0, e, e / 50.0], [0.0, e / 50.0, 1.1 * e]])
+                obj = qr.Hamiltonian(data=from_internal(u, E))
+                obj.diagonalize(coupling_cutoff=float(from_internal(u, e / 30.0)))
+                mid = numpy.array(obj.data)
+                check(numpy.all(numpy.abs(mid - from_internal(u, numpy.diag([0.0, e, 1.1 * e]))) <= RTOL * numpy.abs(from_internal(u, e))),
+                      "value-read-equals-conversion",
+                      lambda: "op %d: Hamiltonian after diagonalize(coupling_cutoff) under %r reads %r" % (i, u, mid.tolist()))
+                obj.undiagonalize()
+                store = E
             elif name == "faxis":
                 obj = qr.FrequencyAxis(v, 5, v / 10.0)
                 store = e
@@ -631,7 +656,7 @@ class Runner:
                 store = e
             else:
                 raise HarnessError("unknown accessor " + name)
-        except HarnessError:
+        except (HarnessError, Violation):
             raise
         except Exception as ex:
             raise Violation("setter-raises", "op %d: %s with %r %s: %s: %s" % (i, name, v, u, type(ex).__name__, ex))
@@ -685,7 +710,7 @@ class Runner:
                 got = self.m.convert_length_2_current_u(e)
                 exp = e / F_LENGTH[lu]
                 u = lu
-            elif name in ("ham_new", "ham_assign", "ham_inplace"):
+            elif name in ("ham_new", "ham_assign", "ham_inplace", "ham_diag", "ham_undiag"):
                 got = numpy.array(obj.data)
                 exp = from_internal(u, e)
             elif name == "ham_rwa":
